@@ -359,7 +359,13 @@ def families(tier):
             conc_family('move+restate-parent', [('put', 2, 4, False),
                                                 ('put', 2, 1, True)]),
             conc_family('move+move', [('put', 2, 4, False),
-                                      ('put', 2, 5, False)])]
+                                      ('put', 2, 5, False)]),
+            # a provider is deleted while its first child is being created,
+            # or while an existing root is being put under it
+            conc_family('delete-leaf+post-child-under-it',
+                        [('delete', 3, None, False), ('post', 7, 3, False)]),
+            conc_family('delete-root+move-under-it',
+                        [('delete', 4, None, False), ('put', 5, 4, False)])]
     if tier == 'thorough':
         deep = deep_forests()
         fams += [fam_post(8, deep, '-deep'), fam_put(8, deep, '-deep'),
